@@ -3,7 +3,7 @@
    exposes is initialised, live and exposed once; the block satisfies the layout invariant. *)
 From Coq Require Import ZArith List Bool Lia Permutation.
 From MV Require Import Ast Eval Scalar Machine.
-From MV.Proofs Require Import Arith Logic Prim View OpsLocal Guards Grow CapHistory Drops Retain Sentinel.
+From MV.Proofs Require Import Arith Logic Prim View OpsLocal Guards Grow CapHistory Drops Retain Dedup Sentinel.
 Import ListNotations.
 Open Scope Z_scope.
 
@@ -504,6 +504,43 @@ Section Core.
       apply truncate_inv; [right; eauto|lia].
   Qed.
 
+
+  (* ---------------------------------------------------------------- dedup / dedup_by / dedup_by_key *)
+  Lemma dedup_inv s v k sc : vinv s v ->
+    post (dedup_by cfg v k sc s) (fun _ s' => vinv s' v) (fun s' => vinv s' v).
+  Proof.
+    intros [Hs|(b & bl & Hv & Hb & Ho)].
+    - rewrite (sn_dedup cfg s v Hs k sc). simpl. left. exact Hs.
+    - pose proof (bo_len _ _ Hb) as Hlen.
+      unfold dedup_by.
+      rewrite (bind_val _ _ _ _ _ (len_at cfg _ _ _ _ Hcfg Hv Hb)).
+      destruct (Z.ltb_spec (h_len bl) 2) as [Hsmall|Hbig]. { simpl. right. eauto. }
+      destruct (as_ptr_at cfg _ _ _ _ Hcfg Hv Hb) as (off & Hco & Hp).
+      rewrite (bind_val _ _ _ _ _ Hp).
+      assert (Hperm0 : permuted cfg s s v b bl (h_len bl)).
+      { exists bl. split; [exact Hv|]. split; [exact Hb|]. repeat (split; [reflexivity|]).
+        split; [exact (ow_init _ _ Ho)|]. split; [apply Permutation_refl|]. repeat (split; [reflexivity|]). intros; reflexivity. }
+      assert (Hlive0 : forall e, In e (view (slots bl) (h_len bl)) -> tracked cfg = false \/ ledger s e = Live).
+      { intros e He. right. apply (ow_live _ _ Ho). exact He. }
+      assert (Hback : forall s', permuted cfg s s' v b bl (h_len bl) ->
+                exists bl', vec_at s' v b bl' /\ block_ok cfg bl' /\ owned s' bl' /\ h_len bl' = h_len bl).
+      { intros s' (bl' & Hv' & Hb' & Hl' & _ & _ & _ & _ & Hi' & Hpm & Hled & Hnx & _).
+        exists bl'. split; [exact Hv'|]. split; [exact Hb'|]. split; [|exact Hl'].
+        assert (Hvel : Permutation (velems bl') (velems bl)) by (unfold velems; rewrite Hl'; exact Hpm).
+        constructor.
+        - rewrite Hl'. exact Hi'.
+        - eapply Permutation_NoDup; [symmetry; exact Hvel|exact (ow_nodup _ _ Ho)].
+        - intros e He. rewrite Hled. apply (ow_live _ _ Ho). eapply Permutation_in; eassumption.
+        - intros e He. rewrite Hnx. apply (ow_old _ _ Ho). eapply Permutation_in; eassumption. }
+      eapply post_bind.
+      { eapply post_weaken; [apply (dedup_loop_spec cfg Hcfg k v b bl (h_len bl) off s Hco Hlive0 (Z.to_nat (h_len bl)) s 1 1 sc Hperm0); lia| |].
+        - intros w s' H. exact H.
+        - intros s' Hpm. destruct (Hback s' Hpm) as (bl' & H1 & H2 & H3 & _). right. eauto. }
+      intros w s' (Hw & Hpm).
+      destruct (Hback s' Hpm) as (bl' & H1 & H2 & H3 & H4).
+      apply truncate_inv; [right; eauto|lia].
+  Qed.
+
   (* ---------------------------------------------------------------- all histories over the core alphabet *)
   Inductive coreop :=
   | KPush (payload_ : Z)
@@ -511,6 +548,7 @@ Section Core.
   | KRemove (i : Z)
   | KTruncate (n : Z)
   | KRetain (sc : list answer)
+  | KDedup (k : same_kind) (sc : list answer)
   | KCap (o : capop).
 
   Definition coreop_ok (o : coreop) : Prop :=
@@ -528,6 +566,7 @@ Section Core.
     | KRemove i => _ <- remove cfg v i ;; ret tt
     | KTruncate n => truncate cfg v n
     | KRetain sc => retain cfg v sc
+    | KDedup k sc => dedup_by cfg v k sc
     | KCap o => run_capop cfg ncap v o
     end.
 
@@ -540,7 +579,7 @@ Section Core.
   Lemma run_coreop_inv s v o : vinv s v -> coreop_ok o ->
     post (run_coreop v o s) (fun _ s' => vinv s' v) (fun s' => vinv s' v).
   Proof.
-    intros Hinv Hok. destruct o as [p| |i|n|sc|o]; simpl in *.
+    intros Hinv Hok. destruct o as [p| |i|n|sc|k sc|o]; simpl in *.
     - rewrite (bind_val _ _ _ _ _ (fresh_elem_eq s p)).
       apply push_inv.
       + apply vinv_fresh. exact Hinv.
@@ -555,6 +594,7 @@ Section Core.
     - eapply post_bind; [apply remove_inv; assumption|]. intros r s' H. simpl. exact H.
     - apply truncate_inv; assumption.
     - apply retain_inv; assumption.
+    - apply dedup_inv; assumption.
     - apply capop_inv; assumption.
   Qed.
 
